@@ -96,7 +96,7 @@ PROPS = {
         level='proof'),
     'C39': dict(
         id='C39', cluster='Genesis', crate='h-genesis', tag=39,
-        n={'quick': 120, 'thorough': 1500},
+        n={'quick': 64, 'thorough': 1500},
         theorems=['concat_chunks', 'chunks_sizes', 'import_independent_of_grouping', 'import_export_id',
                   'import_export_id_json_partial', 'import_export_id_json_refuted', 'codec_roundtrip',
                   'c39_checker_sound', 'c39_model_passes'],
